@@ -751,19 +751,11 @@ def main(tier):
             continue
         values = text_family_values(run, rng, tier, m)
         run.count("family_%s_values" % m["name"], len(values))
-        meta = m.get("value_meta", {})
 
-        def tclassify(j, s, kind, detail, m=m, values=values, meta=meta):
+        def tclassify(j, s, kind, detail, m=m, values=values):
             g = detail if kind in ("enc-differs", "model-differs") else detail.get("groups", {})
             if s == "uper" and needs_per_char_map(m["text"]) and split_along_no_constraints(fvariants, g):
                 return "C13-no-constraints-per-alphabet"
-            reals = meta.get(values[j], {}).get("reals", [])
-            if reals and split_along(fvariants, g, "-fwide-types"):
-                # asn_double2REAL is on the native path only: its two known defects (C16) show as native/wide differences
-                if any(real_is_subnormal(x) for x in reals):
-                    return "C13-real-native-subnormal"
-                if any(real_leading_zero_region(x) for x in reals):
-                    return "C13-real-native-leading-zero"
             return None
         check_module(run, rng, tier, fvariants, m["name"], values, tclassify, "family", dec_limit=400 if quick else 1200)
     _t("family text done")
